@@ -1,7 +1,7 @@
 SPECIFICATION Spec
 CONSTANTS NPS = 4  MinDelay = 1  BurstMult = 4  BurstPkts = 2  MinSamples = 3  DefCwnd = 12  Mds0 = 3  Rtts <- RttQ
   BpsSet <- BpsP  MdsUp <- MdsUp4  Steps <- StepsP  Batches <- Bat1  MaxTime = 6  MaxSends = 3  MaxAcks = 1  MaxOps = 1000
-  CeilOn = FALSE  CapOn = TRUE  ConsumeOn = TRUE  ClampN = 4  ClampD = 5  StaleOn = TRUE  FloorOn = TRUE
+  CeilOn = FALSE  CapOn = TRUE  ConsumeOn = TRUE  StampOn = TRUE  ClampN = 4  ClampD = 5  StaleOn = TRUE  FloorOn = TRUE
 INVARIANT NoHardViolation
 VIEW View
 CHECK_DEADLOCK FALSE
